@@ -34,6 +34,7 @@ static const struct { const char *prefix, *kind; } KINDS[] = {
     {"Unique data leaf(s) \"", "NoUniq"},
     {"Must condition \"", "NoMust"},
     {"When condition \"", "NoWhen"},
+    {"Invalid leafref value \"", "NoReqInst"},
     {"List instance is missing its key \"", "NoKey"},
     {"Invalid type ", "BadValue"},
     {"Invalid boolean value \"", "BadValue"},
